@@ -279,3 +279,71 @@ Fixpoint ops_of (is : list input) (os : list obs) : list op :=
   | i :: is', o :: os' => op_of i o :: ops_of is' os'
   | _, _ => []
   end.
+
+(* ---- what the model assumes about the SOURCE, as data: compared by computation with gen/Facts06.v, which
+   harness/astfacts06 regenerates from the current Go source on every check (gen/obl_C06.v) ---- *)
+From Coq Require Import String.
+Open Scope string_scope.
+
+Inductive pdefault := DInt (z : Z) | DFloat (f : float) | DBool (b : bool) | DOther (text : string).
+
+(* archive.StorageResult in iota order (the Go identifier of [CanBeStored] is unexported) *)
+Definition storage_result_names : list string :=
+  ["StoredReplacingDominatedEntries"; "StoredWithNoDominanceDetected";
+   "RejectedWithStoredEntryDominanceDetected"; "RejectedWithDuplicateEntryDetected";
+   "canBeStored"; "StoredForcingDominatingStateRemoval"].
+
+(* [try_random_change]: Compress(current); generatePotentialModel; Compress(potential) = the candidate;
+   differences candidate - current (what the coolant is given); attempt on the candidate; AcceptOrRevertChange
+   on those differences; ReturnToBaseIfRequired; checkNonDominanceIfRequired; currentIteration++ *)
+Definition try_random_change_order : list string :=
+  ["compress:currentModel"; "call:generatePotentialModel()"; "compress:potentialModel";
+   "differences:compressed(potentialModel)-compressed(currentModel)";
+   "attempt:compressed(potentialModel)";
+   "call:AcceptOrRevertChange(differences(compressed(potentialModel)-compressed(currentModel)))";
+   "call:ReturnToBaseIfRequired(compressed(potentialModel))";
+   "call:checkNonDominanceIfRequired()"; "++:currentIteration"].
+
+(* suppapitnarm/Parameters.go: key, validator, default.  [params_ok] is the validators' range of the three
+   schedule parameters (with NaN excluded and the exact-conversion bound 2^53 added) *)
+Definition default_factor : float := mkf 8556839292003942 (-53).   (* 0.95 *)
+Definition default_isolation : float := mkf 8106479329266893 (-53). (* 0.9 *)
+Definition param_specs : list (string * string * pdefault) :=
+  [("ReturnToBaseAdjustmentFactor", "IsDecimalBetweenZeroAndOne", DFloat default_factor);
+   ("InitialReturnToBaseStep", "IsNonNegativeInteger", DInt 20000);
+   ("MinimumReturnToBaseRate", "IsNonNegativeInteger", DInt 10);
+   ("ReturnToBaseIsolationFraction", "IsDecimalBetweenZeroAndOne", DFloat default_isolation);
+   ("CheckNonDominance", "IsBoolean", DBool false)].
+
+(* where the schedule reads them: step := float64(GetInt64(Initial...)) in SetParameters;
+   GetInt64(Minimum...) and GetFloat64(...Factor) in adjustReturnToBaseRate; GetBoolean(CheckNonDominance) *)
+Definition getter_sites_needed : list (string * string * string) :=
+  [("SetParameters", "GetInt64", "InitialReturnToBaseStep");
+   ("adjustReturnToBaseRate", "GetInt64", "MinimumReturnToBaseRate");
+   ("adjustReturnToBaseRate", "GetFloat64", "ReturnToBaseAdjustmentFactor");
+   ("checkNonDominanceIfRequired", "GetBoolean", "CheckNonDominance")].
+
+Definition pdefault_eqb (a b : pdefault) : bool :=
+  match a, b with
+  | DInt x, DInt y => Z.eqb x y
+  | DFloat x, DFloat y => fsame x y
+  | DBool x, DBool y => Bool.eqb x y
+  | _, _ => false
+  end.
+
+Definition spec_eqb (a b : string * string * pdefault) : bool :=
+  String.eqb (fst (fst a)) (fst (fst b)) && String.eqb (snd (fst a)) (snd (fst b)) && pdefault_eqb (snd a) (snd b).
+
+Definition triple_eqb (a b : string * string * string) : bool :=
+  String.eqb (fst (fst a)) (fst (fst b)) && String.eqb (snd (fst a)) (snd (fst b)) && String.eqb (snd a) (snd b).
+
+Fixpoint strings_eqb (a b : list string) : bool :=
+  match a, b with
+  | [], [] => true
+  | x :: a', y :: b' => String.eqb x y && strings_eqb a' b'
+  | _, _ => false
+  end.
+
+(* equality of two lists of codes as sets *)
+Definition nats_subset (a b : list nat) : bool := forallb (fun x => existsb (Nat.eqb x) b) a.
+Definition nats_same_set (a b : list nat) : bool := nats_subset a b && nats_subset b a.
